@@ -651,6 +651,17 @@ def corpus_modules(tier):
                           ("T", {"k": "seq", "fields": [field("e", {"k": "ref", "name": "E"}, dflt="def-g")]})])])
     out.append([mod("M", [("T", {"k": "seq", "fields": [field("e", {"k": "enum", "items": ["abc", "def-g"]}, dflt="abc")]})])])
     out.append([mod("M", [("W", U8), ("T", {"k": "seq", "fields": [field("w", {"k": "ref", "name": "W"}, dflt="3")]})])])
+    # ENUMERATED DEFAULT whose variant name exercises every rule of the variant mangling (runs of
+    # capitals, capital at the end, digits, hyphens): the DEFAULT constant must name the declared variant
+    odd = ["plain", "unknownID", "aB", "abCD", "x9Y", "some-THING", "aBC-d", "a-b-c", "iPv6", "uRL", "x2"]
+    for v in odd:
+        out.append([mod("M", [("E", {"k": "enum", "items": odd}),
+                              ("T", {"k": "seq", "fields": [field("e", {"k": "ref", "name": "E"}, dflt=v)]})])])
+    out.append([mod("M", [("T", {"k": "seq", "fields": [field("e" + str(i), {"k": "enum", "items": odd}, dflt=v) for i, v in enumerate(odd)]})])])
+    # DEFAULT components after the extension marker, of every literal kind
+    out.append([mod("M", [("E", {"k": "enum", "items": ["abc", "def-g"]}),
+                          ("T", {"k": "seq", "ext": 0, "fields": [field("a", BOOL), field("i", U8, dflt="7"), field("b", BOOL, dflt="TRUE"),
+                                                                 field("s", UTF8, dflt='"none"'), field("e", {"k": "ref", "name": "E"}, dflt="def-g")]})])])
     # shapes at the edge of what the generator supports
     out.append([mod("M", [("T", {"k": "seq", "fields": []})])])
     out.append([mod("M", [("T", {"k": "seq", "fields": [], "ext": -1})])])
@@ -784,6 +795,8 @@ def rnd_struct(rng, depth, typenames, kind):
                 elif k == "int" and not t.get("named"):
                     lo = t.get("lo") if t.get("lo") is not None else 0
                     f["def"] = str(lo)
+                elif k == "enum" and t.get("items"):
+                    f["def"] = rng.choice(t["items"])
                 elif k == "str":
                     f["def"] = '"1"' if t["cs"] == "NumericString" else '"ab"'
                     if t.get("size"):
